@@ -91,6 +91,18 @@ package binary
 // writeChangeSwitchCase prints the per-version switch around the three printers it is given and calls nothing else
 // dynamically (checked on its SSA).
 //@ callback-parametric func writeChangeSwitchCase
+// C05 "the generated reader reads streams written under any listed previous version": the step is read or written in
+// the layout of the current version exactly once whatever the version switch looks like (the `default:` branch, or the
+// whole body when no version changed the step); every version whose change needs handling gets its own `case` that
+// ends with `break;`, handles an added step with the printer for added steps and any other change with the
+// conversion printer, once. C12: the cases follow the sorted version labels (the map is never printed in its own order).
+//@ func writeChangeSwitchCase
+//@   property C05,C12
+//@   ensures the_current_layout_is_handled_exactly_once: calls(writeDefault) == 1
+//@   invariant 1: calls(writeDefault) == 0
+//@   iteration 1: a_version_without_a_change_gets_no_case: old(changes[versionLabel]) == nil ==> emittedHere("case Version::%s: {\n") == 0 && calls(writeConversion) == old(calls(writeConversion)) && calls(writeAdded) == old(calls(writeAdded))
+//@   iteration 1: a_changed_step_is_converted_in_its_own_case: old(changes[versionLabel]) != nil && typeof(old(changes[versionLabel])) != *dsl.TypeChangeStepAdded && writeConversion != nil ==> emittedHere("case Version::%s: {\n") == 1 && emittedArg("case Version::%s: {\n", 0, 0, string) == versionLabel && calls(writeConversion) == old(calls(writeConversion)) + 1 && calls(writeAdded) == old(calls(writeAdded)) && emittedHere("break;\n") == 1
+//@   iteration 1: an_added_step_is_handled_in_its_own_case: typeof(old(changes[versionLabel])) == *dsl.TypeChangeStepAdded && writeAdded != nil ==> emittedHere("case Version::%s: {\n") == 1 && emittedArg("case Version::%s: {\n", 0, 0, string) == versionLabel && calls(writeAdded) == old(calls(writeAdded)) + 1 && calls(writeConversion) == old(calls(writeConversion)) && emittedHere("break;\n") == 1
 
 // C01 (docs/reference/binary.md, Protocols and Streams): a plain step is written and read with the function of its
 // type; a stream is a sequence of blocks (a count, then that many items) closed by an empty block: one item is
